@@ -77,9 +77,10 @@ SCENARIOS.update({
                                            "loop": {"bytes": INCOMING_SNCT, "idle_waits": 0}, "copts": {"ping_rate": 0}},
 })
 BOUND2 = ["2x1_text_plain", "2x1_text_deflate", "2x1_text_binary_deflate", "2x1_text_ping_deflate"]
-FIRST_USE = ["2x1_text_deflate", "2x1_text_deflate_nct"]
+FIRST_USE = ["2x1_text_deflate", "2x1_text_deflate_nct", "2x2_deflate_nct"]
 IN_WRITE = ["2x2_plain", "close_vs_2_sends", "3x1_deflate", "send_ping_close", "close_close_send"]
 IN_WRITE_POINTS = ("sendall.mid", "lock.acquire", "cond.wait", "cond.notify")
+FIRST_USE_NARROW = ["2x2_deflate_nct"]
 EARLY = 24
 _BASE = {}
 
@@ -218,7 +219,12 @@ class C11(Prop):
                     for step, who, _ in log[:EARLY]:
                         for t in names:
                             if t != who:
-                                yield {"scn": name, "order": list(order), "first": [step - 1, t], "sweep2": True}
+                                c = {"scn": name, "order": list(order), "first": [step - 1, t], "sweep2": True}
+                                if name in FIRST_USE_NARROW and tier == "quick":
+                                    # (cost bound for the four-call scenario: second preemptions only where a thread is
+                                    # inside the extension's code or at a write / lock / condition point)
+                                    c["sweep2_in"] = "compression.py"
+                                yield c
         def in_write_races():
             # a first preemption while the running thread is INSIDE the locked write (between the two halves of the
             # socket write) or about to take a lock - another thread then queues up behind it - x every second preemption
@@ -341,7 +347,12 @@ class C11(Prop):
             return held(labels, took, sub[1:])
         if first and case.get("sweep2"):
             names = thread_names(scn)
-            for s2 in range(first[0] + 1, out.steps):
+            steps2 = range(first[0] + 1, out.steps)
+            if case.get("sweep2_in"):
+                out_l, bad = self.run_one(scn, schedule, labels, sub, "1l", keep_log=True)
+                steps2 = [s3 - 1 for s3, _, wh in out_l.log if s3 > first[0] + 1 and (
+                    wh in IN_WRITE_POINTS or (isinstance(wh, tuple) and wh[0].endswith(case["sweep2_in"])))]
+            for s2 in steps2:
                 for t2 in names:
                     out2, bad = self.run_one(scn, {"order": case["order"], "preempt": [first, [s2, t2]]}, labels, sub,
                                              "2:%d:%s" % (s2, t2))
